@@ -148,6 +148,9 @@ def finish(ctx: Ctx, level_text: str, seed: int = 0) -> int:
             json.dump({"property": pid, **asdict(o), "rule_text": ctx.rules_text.get(o.rule, ""),
                        "rederive": f"./check {pid} --tier {ctx.tier} --repo {ctx.repo}"}, fh, indent=1, default=str)
         print(f"  finding: {o.rule} {o.where()} [{o.construct}] {o.detail}")
+        if os.environ.get("VERIF_EMIT_KNOWN"):  # triage helper only: never writes the known-findings file
+            print("  KNOWN-ENTRY " + json.dumps({"status": "known", "property": pid, "rule": o.rule, "module": o.module,
+                                                  "function": o.function, "construct": o.construct, "what": o.detail}))
         print(f"VIOLATION property={pid} replay={rp}")
     wall = time.time() - ctx.t0
     distinct = len({o.key(pid) for o in obs})
